@@ -38,6 +38,14 @@ class _BytesLit(ast.NodeTransformer):
     def visit_JoinedStr(self, node):
         return self.generic_visit(node)
 
+    def visit_Dict(self, node):
+        node = self.generic_visit(node)
+        return ast.copy_location(ast.Call(ast.Name("__symdict__", ast.Load()), [node], []), node)
+
+    def visit_DictComp(self, node):
+        node = self.generic_visit(node)
+        return ast.copy_location(ast.Call(ast.Name("__symdict__", ast.Load()), [node], []), node)
+
 
 _CODE = {}
 
@@ -602,7 +610,7 @@ class World:
             int=shim(int, sym_int, (SymInt,)),
             str=shim(str, sym_str, (SymStr, OStr)),
             float=shim(float, sym_float),
-            bytes=ABuf, bytearray=ABuf, __abuf__=ABuf,
+            bytes=ABuf, bytearray=ABuf, __abuf__=ABuf, __symdict__=core.SymDict,
             memoryview=lambda x: _abuf.AView(x) if isinstance(x, (ABuf, _abuf.AView)) else _bi.memoryview(x),
             open=self.fs.open,
             print=lambda *a, **k: None,
